@@ -55,6 +55,8 @@ func CommonDiscards(e *wref.Events, off func(string) bool) string {
 		return "known:bits-out-of-range"
 	case e.RoundTie > 0 && off("round.tie"):
 		return "known:round-tie"
+	case e.RemNeg > 0 && off("rem.negative"):
+		return "known:int-rem-negative-operand"
 	case e.DivZero > 0 && off("div.zero"):
 		return "known:int-div-by-zero"
 	case e.DivOverflow > 0 && off("div.overflow"):
